@@ -3,7 +3,8 @@
  *   lin / linrev : lo = 2^p1 + p2 (p1 < 0: lo = p2); step p3; last element += p4
  *   few          : p1 distinct values, gap p2, lo p3
  *   out          : p1 outliers at lo+p3, the rest cycle in lo..lo+p2; lo p4
- *   spread       : unsorted, unique: lo p2 + i*p1, first two swapped */
+ *   spread       : unsorted, unique: lo p2 + i*p1, first two swapped
+ *   lindup       : lo p2 + i*p3 with element p1 (>= 1) repeating its predecessor */
 #ifndef VERIF_RECIPES_H
 #define VERIF_RECIPES_H
 #include <stdint.h>
@@ -42,6 +43,15 @@ static int recipe_shape(const char *shape, size_t n, long p1, long p2, long p3, 
         }
         for (size_t i = 1; i <= (size_t)p1 && i < n; i++) {
             xs[i] = lo + (uint64_t)p3;
+        }
+        return 1;
+    }
+    if (!strcmp(shape, "lindup")) {
+        for (size_t i = 0; i < n; i++) {
+            xs[i] = (uint64_t)p2 + (uint64_t)i * (uint64_t)p3;
+        }
+        if (p1 >= 1 && (size_t)p1 < n) {
+            xs[p1] = xs[p1 - 1];
         }
         return 1;
     }
